@@ -17,15 +17,18 @@ class ModelStub(Opaque):
     """joint model as seen by the sample-based contours: n_dim, draw_sample(n), marginal_icdf(p, dim)"""
     type_name = "GlobalHierarchicalModel"
 
-    def __init__(self, cx, n_dim=2):
+    def __init__(self, cx, n_dim=2, precision_factor=None):
         self.n_dim = n_dim
         self.draws = []
         self.icdf_calls = []
         self.cx = cx
+        self.precision_factor = precision_factor   # set for a model defined in another variable space (TransformedModel)
 
     def getattr_(self, itp, name):
         if name == "n_dim":
             return self.n_dim
+        if name == "precision_factor" and self.precision_factor is not None:
+            return self.precision_factor
         raise PyRaise("AttributeError", name)
 
     def call_method(self, itp, name, args, kwargs):
@@ -80,7 +83,8 @@ class DsInit(Contract):
             cx.oblige("post.n_default", T.land(T.le(q, T.div(100, self.alpha.t)), T.gt(T.add(q, 1), T.div(100, self.alpha.t))), "post", "n = int(100/alpha)")
 
 
-@contract(DS + "._compute", ["C03", "C18", "C19"], [dict(sample=s, nd=nd) for s in ("given", "drawn") for nd in (2,)] + [dict(sample="given", nd=3), dict(sample="drawn", nd=1)],
+@contract(DS + "._compute", ["C03", "C18", "C19"], [dict(sample=s, nd=nd) for s in ("given", "drawn") for nd in (2,)] + [dict(sample="given", nd=3), dict(sample="drawn", nd=1)]
+          + [dict(sample="drawn", nd=2, transformed=True)],
           name="ds.compute")
 class DsCompute(Contract):
     """r_i = empirical (1-alpha)-quantile of the sample projected on the normal (cos a_i, sin a_i); normals advance
@@ -88,7 +92,23 @@ class DsCompute(Contract):
     consecutive vertices lies on a tangent line; only 2-D models are accepted; a missing sample is drawn with n points"""
 
     def case_label(self, case):
-        return f"sample={case['sample']},n_dim={case['nd']}"
+        return f"sample={case['sample']},n_dim={case['nd']}" + (",model with a precision_factor" if case.get("transformed") else "")
+
+    def replay(self, case, ob):
+        """native: a TransformedModel with a non-default precision_factor and no supplied sample - n points are drawn"""
+        import numpy as np
+        import virocon
+        dd, fd, sem, tr = virocon.get_Nonzero_EW_Hs_S()
+        base = virocon.GlobalHierarchicalModel(dd)
+        base.distributions[0].alpha, base.distributions[0].beta, base.distributions[0].delta = 0.8, 1.2, 2.0
+        bad = []
+        for pf, alpha, n in ((0.2, 0.3, None), (0.5, 0.11, None), (0.25, 0.2, 801)):
+            m = virocon.TransformedModel(base, tr["transform"], tr["inverse"], tr["jacobian"], precision_factor=pf, random_state=3)
+            c = virocon.DirectSamplingContour(m, alpha, **({"n": n} if n else {}))
+            want = n if n else int(100 / alpha)
+            if np.asarray(c.sample).shape != (want, 2):
+                bad.append((pf, alpha, n, np.asarray(c.sample).shape, want))
+        return {"confirmed": bool(bad), "detail": f"(precision_factor, alpha, n given, shape of the drawn sample, points that have to be drawn): {bad}" if bad else "n points drawn"}
 
     def setup(self, itp, case):
         me = self
@@ -125,7 +145,13 @@ class DsCompute(Contract):
         cx.assume(T.land(T.gt(self.deg.t, 0), T.le(self.deg.t, 60)))
         self.n = integer(cx, "n")
         cx.assume(T.ge(self.n.t, 50))
-        self.model = ModelStub(cx, case["nd"])
+        pf = None
+        if case.get("transformed"):
+            # a model defined in another variable space carries a precision_factor for ITS Monte-Carlo methods; the
+            # number of points a direct sampling contour draws is int(100/alpha) (or the given n) all the same
+            pf = real(cx, "model.precision_factor")
+            cx.assume(T.land(T.gt(pf.t, 0), T.le(pf.t, 1)))
+        self.model = ModelStub(cx, case["nd"], precision_factor=pf)
         if case["sample"] == "given":
             m = cx.sym("m", "int")
             cx.assume(T.ge(m, 50))
